@@ -97,6 +97,21 @@ def tagfree(run, p):
     run.floor('C13-TAGFREE', n, 40)
 
 
+def _is_group_of(p, f, wrap, plain):
+    """wrap denotes plain inside one pair of parentheses: both expressions evaluated with every name they use standing for a
+    distinct piece of text"""
+    from ..pyeval import Interp, Unsupported, Raised
+    env = {}
+    for x in list(ast.walk(wrap)) + list(ast.walk(plain)):
+        if isinstance(x, ast.Name) and isinstance(x.ctx, ast.Load) and x.id not in f.mod.syms:
+            env.setdefault(x.id, '<%s>' % x.id)
+    try:
+        I = Interp(p)
+        return I.expr(wrap, dict(env), f.mod) == '(' + I.expr(plain, dict(env), f.mod) + ')'
+    except (Unsupported, Raised, TypeError):
+        return False
+
+
 def anchor(run, p):
     run.rule('C13-ANCHOR', 'every expression stored in a result\'s rex list is produced by vrle2re/rle2re; every return of those passes the '
                            'anchoring wrapper poss_term_re, which is bound to ^...$ because TERMINATE folds to True')
@@ -110,10 +125,17 @@ def anchor(run, p):
             for x in s.body:
                 if isinstance(x, ast.Assign) and any(norm(t) == 'poss_term_re' for t in x.targets):
                     bound = norm(x.value)
-    tr = p.fn(RX + 'terminated_re') if bound == 'terminated_re' else None
-    ok = tr is not None and any(isinstance(r, ast.Return) and isinstance(r.value, ast.BinOp) and isinstance(r.value.left, ast.Constant)
-                                and r.value.left.value == '^%s$' for r in ast.walk(tr.node))
-    run.ob('C13-ANCHOR', 'poss_term_re', ok, 'poss_term_re is %s, which returns "^%%s$" %% expr: %s' % (bound, ok), rel=m.rel, line=1)
+    from ..pyeval import Interp, Unsupported, Raised
+    ok = False
+    got = None
+    if bound and bound.isidentifier() and p.has_fn(RX + bound):
+        tr = p.fn(RX + bound)
+        try:
+            got = [Interp(p).call(tr, [x]) for x in ('abc', '[a-z]+\\d', '')]
+            ok = got == ['^abc$', '^[a-z]+\\d$', '^$']
+        except (Unsupported, Raised) as e:
+            raise AnalysisError('%s is not evaluable: %s' % (bound, e))
+    run.ob('C13-ANCHOR', 'poss_term_re', ok, 'poss_term_re is %s, which wraps an expression as %s' % (bound, got), rel=m.rel, line=1)
     for name in ('vrle2re', 'rle2re'):
         f = p.method('Extractor', name)
         rets = [r for r in ast.walk(f.node) if isinstance(r, ast.Return)]
@@ -219,11 +241,7 @@ def tag(run, p):
                 if isinstance(q, ast.IfExp) and q.test is child:
                     a, b = q.body, q.orelse
                     for wrap, plain in ((a, b), (b, a)):
-                        if isinstance(wrap, ast.Call) and getattr(wrap.func, 'id', '') == 'capture_group' and len(wrap.args) == 1 \
-                                and norm(wrap.args[0]) == norm(plain):
-                            ok, how = True, 'group-or-not'
-                        if isinstance(wrap, ast.BinOp) and isinstance(wrap.op, ast.Mod) and isinstance(wrap.left, ast.Constant) \
-                                and wrap.left.value == '(%s)' and norm(wrap.right) == norm(plain):
+                        if _is_group_of(p, f, wrap, plain):
                             ok, how = True, 'group-or-not'
                 # statement form:  if <tag test>: return group(X)  [else:] return X
                 if isinstance(q, ast.If) and q.test is child and len(q.body) == 1 and isinstance(q.body[0], ast.Return):
@@ -236,14 +254,18 @@ def tag(run, p):
                             alt = blk[blk.index(q) + 1]
                     if alt is not None and alt.value is not None:
                         wrap, plain = q.body[0].value, alt.value
-                        if isinstance(wrap, ast.Call) and getattr(wrap.func, 'id', '') == 'capture_group' and len(wrap.args) == 1 \
-                                and norm(wrap.args[0]) == norm(plain):
+                        if _is_group_of(p, f, wrap, plain):
                             ok, how = True, 'group-or-not'
             run.ob('C13-TAG', '%s::%s::%s' % (f.rel, f.short, norm(par)[:40] if par is not None else u.lineno), ok,
                    '%s in %s is %s: %s' % (norm(u), f.short, how, norm(par)[:60] if par is not None else ''), fn=f, node=u)
     cg = p.fn(RX + 'capture_group')
-    src = ast.unparse(cg.node)
-    run.ob('C13-TAG', 'capture_group', "'(%s)' % s" in src, 'capture_group only adds parentheses', fn=cg, nontrivial=False)
+    from ..pyeval import Interp, Unsupported, Raised
+    try:
+        got = [Interp(p).call(cg, [x]) for x in ('ab', '[a-z]+', '(ab)', 'a)(b', '')]
+    except (Unsupported, Raised) as e:
+        raise AnalysisError('capture_group is not evaluable: %s' % e)
+    run.ob('C13-TAG', 'capture_group', got[:2] == ['(ab)', '([a-z]+)'] and got[2] in ('(ab)', '((ab))'),
+           'capture_group only adds parentheses: %s' % got, fn=cg, nontrivial=False)
     run.floor('C13-TAG', n, 8)
 
 
